@@ -134,6 +134,8 @@ impl<Error: Send + 'static> DecodeScheduler<Error> {
 		// discarded together with its track or manager), nobody will ever read
 		// the frames, so end the thread
 		if self.frame_producer.is_abandoned() {
+			#[cfg(kira_verif)]
+			crate::verif::point("dec.end.abandoned");
 			return Ok(NextStep::End);
 		}
 		// if the frame ringbuffer is full, sleep for a bit
